@@ -4034,7 +4034,8 @@ fn exact_div<N>(n: N, rhs: N) -> Option<N>
 where
     N: std::ops::Div<Output = N> + std::ops::Rem<Output = N> + std::cmp::PartialEq + Copy + Default,
 {
-    (n % rhs == N::default()).then_some(n / rhs)
+    // a zero divisor (e.g. a channel count of 0) divides nothing exactly
+    (rhs != N::default() && n % rhs == N::default()).then(|| n / rhs)
 }
 
 // verification hook: inert unless built by `cargo kani` (cfg(kani)); see /verif/DESIGN.md
